@@ -60,6 +60,21 @@ class SimCallback(object):
                 w.probe("callback_sets_dt")
 
 
+def typed_target(t, t_type):
+    """the number `t` as the kind of object a caller may hand to integrate(t): numpy scalars of any float type, a 0-d array, an int"""
+    if t_type == "f64":
+        return np.float64(t)
+    if t_type == "f32":
+        return np.float32(t)
+    if t_type == "ld":
+        return np.longdouble(t)
+    if t_type == "arr0":
+        return np.asarray(t, dtype=np.float64)
+    if t_type == "int":
+        return int(t)
+    raise ValueError("unknown t_type %r" % (t_type,))
+
+
 class World(object):
     def __init__(self, scn, monitors=(), faults=None, wall_s=20, keep_calls=True):
         self.scn = scn
@@ -492,6 +507,8 @@ class World(object):
                 t = np.inf
             elif t == "-inf":
                 t = -np.inf
+            elif t is not None and op.get("t_type"):
+                t = typed_target(t, op["t_type"])       # the target handed over as a numpy scalar / 0-d array / int instead of a Python float
             try:
                 if op.get("no_monitor"):
                     sysm.integrate(t=t, callback=cbs if cbs else None, events=evs)
